@@ -1,7 +1,7 @@
 (* Non-vacuity examples for C19: concrete states meeting the theorems' hypotheses, and the concrete
    runs behind the `_refuted` theorems. *)
 From Coq Require Import List String Bool Arith.
-From PAFC19 Require Import Syntax Gen Model Proofs Proofs2 Proofs3.
+From PAFC19 Require Import Syntax Gen Model Proofs Proofs2 Proofs3 Proofs4.
 Import ListNotations.
 Open Scope string_scope.
 Open Scope list_scope.
@@ -30,7 +30,7 @@ Proof. split; [discriminate | right; left; reflexivity]. Qed.
 
 Example commit_first_then_identity :
   let h := run_history real_md5 orm_schema steps (File (mkdb base_schema RNoTable 2)) [[OpCommit]; []; [OpWrite]] in
-  map (fun o => List.length (stmts_of (s_trace o))) (fst h) = [9; 0; 0]
+  map (fun o => List.length (stmts_of (s_trace o))) (fst h) = [List.length (raw_stmts steps); 0; 0]
   /\ match snd h with File d => rev_eqb (d_rev d) (RRow (Some latest_id)) && Nat.eqb (d_data d) 2 | NoFile => false end = true.
 Proof. vm_compute. split; reflexivity. Qed.
 
@@ -38,7 +38,7 @@ Proof. vm_compute. split; reflexivity. Qed.
 Example read_only_opens :
   let h := run_history real_md5 orm_schema steps (File (mkdb base_schema RNoTable 2)) [[]; []; []; []] in
   map (fun o => (List.length (stmts_of (s_trace o)), List.length (ok_stmts_of (s_trace o)))) (fst h)
-    = [(9, 9); (9, 9); (9, 1); (9, 0)]
+    = (let n := List.length (raw_stmts steps) in [(n, n); (n, n); (n, 1); (n, 0)])
   /\ map (fun o => rev_eqb (d_rev (s_disk o)) REmpty) (fst h) = [true; true; true; true]
   /\ map (fun o => schema_beq (d_schema (s_disk o)) base_schema) (fst h) = [true; false; false; false].
 Proof. vm_compute. repeat split; reflexivity. Qed.
@@ -54,8 +54,8 @@ Example created_file_gets_extra_column :
 Proof. vm_compute. reflexivity. Qed.
 
 (* hypotheses of C19_reaches_current_*: the ranges are inhabited, `unstamped` is satisfiable *)
-Example ranges_inhabited : 1 <= 1 <= List.length steps /\ 0 < List.length steps /\ unstamped RNoTable.
-Proof. vm_compute. split; [split; repeat constructor|]. split; [repeat constructor | left; reflexivity]. Qed.
+Example ranges_inhabited : 1 <= 1 <= List.length steps /\ 0 < exact_upto /\ 0 <= List.length steps /\ unstamped RNoTable.
+Proof. vm_compute. split; [split; repeat constructor|]. split; [repeat constructor|]. split; [repeat constructor | left; reflexivity]. Qed.
 
 (* C19_columns_preserved: a successful statement exists for each of the three forms *)
 Example exec_examples :
@@ -65,4 +65,26 @@ Example exec_examples :
   /\ exec [("t", ["a"])] (AddColumn "t" "a") = None
   /\ exec [("t", ["a"; "b"])] (RenameColumn "t" "a" "b") = None
   /\ exec [("t", ["a"])] (CreateTable "t" ["x"]) = None.
+Proof. vm_compute. repeat split; reflexivity. Qed.
+
+(* C19_fixed_fixpoint: its hypotheses hold for variant_all and the generated steps; the same three
+   read-only opens as above, now with the repairs: migrated and stamped by the first one *)
+Example fixed_hypotheses : v_commit variant_all = true /\ v_insert variant_all = true /\ v_stamp_new variant_all = true.
+Proof. repeat split. Qed.
+
+Example fixed_read_only_opens :
+  let h := run_history_v real_md5 variant_all orm_schema steps (File (mkdb base_schema RNoTable 2)) [[]; []; []] in
+  map (fun o => List.length (ok_stmts_of (s_trace o))) (fst h) = [List.length (raw_stmts steps); 0; 0]
+  /\ map (fun o => rev_eqb (d_rev (s_disk o)) (RRow (Some latest_id))) (fst h) = [true; true; true]
+  /\ map (fun o => schema_beq (d_schema (s_disk o)) (current_schema base_schema)) (fst h) = [true; true; true].
+Proof. vm_compute. repeat split; reflexivity. Qed.
+
+Example fixed_heals_empty_table :
+  let h := run_history_v real_md5 variant_all orm_schema steps (File (mkdb base_schema REmpty 0)) [[]; []] in
+  map (fun o => rev_eqb (d_rev (s_disk o)) (RRow (Some latest_id))) (fst h) = [true; true].
+Proof. vm_compute. repeat split; reflexivity. Qed.
+
+Example fixed_new_file_is_stamped :
+  let h := run_history_v real_md5 variant_all orm_schema steps NoFile [[]; []] in
+  map (fun o => (List.length (stmts_of (s_trace o)), schema_beq (d_schema (s_disk o)) orm_schema)) (fst h) = [(0, true); (0, true)].
 Proof. vm_compute. repeat split; reflexivity. Qed.
